@@ -1228,12 +1228,26 @@ impl Subject {
 const N_SEQ_TAGS: usize = 2;
 
 impl Subject {
+    /// `pre` ≥ 100 is the pre-state with tags: `pre − 100` files, then the tags a, b and a third
+    /// tag c in that order, c selecting file 0 — removals of a tag that is neither the last nor
+    /// the second to last, followed by operations that find a tag by name.
+    fn pre_files(&self) -> usize {
+        if self.pre >= 100 { self.pre - 100 } else { self.pre }
+    }
+    fn pre_acts(&self) -> Vec<Act> {
+        let mut v: Vec<Act> = (0..self.pre_files()).map(Act::AddFile).collect();
+        if self.pre >= 100 {
+            v.extend([Act::AddTag(0), Act::AddTag(1), Act::AddTag(2), Act::Assoc(0, 2)]);
+        }
+        v
+    }
     fn idx(&self) -> [u8; 3] {
-        if self.pre == 0 { [0, 1, 2] } else { [0, self.pre as u8, self.pre as u8 + 1] }
+        let f = self.pre_files();
+        if f == 0 { [0, 1, 2] } else { [0, f as u8, f as u8 + 1] }
     }
     fn max_files(&self) -> usize {
         // pre = 0: 3 files; pre = 7: up to 9 files (masks of 1 and 2 bytes)
-        if self.pre == 0 { 3 } else { self.pre + 2 }
+        if self.pre_files() == 0 { 3 } else { self.pre_files() + 2 }
     }
     fn to_act(&self, op: &Op, model: &Model) -> Act {
         match *op {
@@ -1254,8 +1268,8 @@ impl Subject {
     }
     fn pre_model(&self) -> Model {
         let mut m = Model::default();
-        for id in 0..self.pre {
-            m.apply(&Act::AddFile(id), self.fmt);
+        for a in self.pre_acts() {
+            m.apply(&a, self.fmt);
         }
         m
     }
@@ -1268,8 +1282,8 @@ impl Subject {
             Ok(s) => s,
             Err(v) => return fail(0, v, 0),
         };
-        for id in 0..self.pre {
-            if let Err(v) = sys.act(&Act::AddFile(id)) {
+        for a in self.pre_acts() {
+            if let Err(v) = sys.act(&a) {
                 return fail(0, v, sys.ops);
             }
         }
@@ -2082,6 +2096,9 @@ fn seq_subjects(seed: u64) -> Vec<(Subject, usize, usize)> {
         (Subject::new(dl(2, true, 2, 0), 0, seed), dq(24), dt(24)),
         (Subject::new(dl(3, true, 1, 1), 0, seed), dq(24), dt(24)),
         (Subject::new(dl(3, false, 0, -1), 7, seed), dq(8), dt(11)),
+        // two files and three tags (a, b, c) before the program starts
+        (Subject::new(Fmt::Install, 102, seed), dq(5), dt(6)),
+        (Subject::new(dl(1, false, 0, 0), 102, seed), dq(5), dt(6)),
     ]
 }
 
@@ -2093,7 +2110,7 @@ pub fn run(tier: Tier, seed: u64) -> i32 {
         Tier::Thorough
     };
     rep.set_rule(
-        "(i) every admissible builder program (valid indices, ≤ max files; a tag name may be added again while its tag selects no file) up to the depth bound over {add_tag, remove_tag, add_file, add_file_with_tags/properties, associate (by name, by index, last), dissociate, remove_file (by index, by key), from_manifest re-open, update size/priority} × 2 tags × 3 file-index slots, from 0 files and from 7 files, on the real install builder and download builders v1/v2/v3; states = distinct serialized manifests (merged only after the name→index probe passed), transitions = builder calls executed, traces = programs executed; every program ≥ 1 call is distinct and non-trivial",
+        "(i) every admissible builder program (valid indices, ≤ max files; a tag name may be added again while its tag selects no file) up to the depth bound over {add_tag, remove_tag, add_file, add_file_with_tags/properties, associate (by name, by index, last), dissociate, remove_file (by index, by key), from_manifest re-open, update size/priority} × 2 tags × 3 file-index slots, from 0 files, from 7 files and from 2 files + 3 tags (a, b and a third tag that selects file 0; depth 6), on the real install builder and download builders v1/v2/v3; states = distinct serialized manifests (merged only after the name→index probe passed), transitions = builder calls executed, traces = programs executed; every program ≥ 1 call is distinct and non-trivial",
     );
     rep.set_rule(
         "(ii) every file count × 7 tag patterns (tag j uses pattern p+j) × 0..=3 tags × 3 construction styles × formats (incl. builders re-opened from an install v2 manifest and from manifests whose mask padding bits are set, as real CDN manifests have), each followed by a plain add_file (+ associate), remove_file(i) for i ∈ {0,7,8,last} + re-add, and drains to empty; a grid case is non-trivial when n > 0 and at least one tag bit is set",
